@@ -20,21 +20,21 @@ import (
 	"github.com/AdguardTeam/urlfilter/rules"
 )
 
-func init() { gens["c02.dns"] = genC02 }
+func init() { gens["c02.dns"] = c02Gen }
 
-// hostCollisions returns pairs of distinct short host names with equal FastHash
+// c02HostCollisions returns pairs of distinct short host names with equal FastHash
 // (found once by a deterministic birthday search).
 var (
-	hostCollisionsOnce  sync.Once
-	hostCollisionsCache [][2]string
+	c02HostCollisionsOnce  sync.Once
+	c02HostCollisionsCache [][2]string
 )
 
-func hostCollisions() [][2]string {
-	hostCollisionsOnce.Do(func() {
+func c02HostCollisions() [][2]string {
+	c02HostCollisionsOnce.Do(func() {
 		seen := map[uint32]string{}
 		letters := "abcdefghijklmnopqrstuvwxyz"
 		x := uint64(12345)
-		for i := 0; i < 600000 && len(hostCollisionsCache) < 12; i++ {
+		for i := 0; i < 600000 && len(c02HostCollisionsCache) < 12; i++ {
 			b := make([]byte, 7)
 			for j := range b {
 				x = x*6364136223846793005 + 1442695040888963407
@@ -43,19 +43,19 @@ func hostCollisions() [][2]string {
 			n := string(b) + ".io"
 			h := filterutil.FastHash(n)
 			if o, ok := seen[h]; ok && o != n {
-				hostCollisionsCache = append(hostCollisionsCache, [2]string{o, n})
+				c02HostCollisionsCache = append(c02HostCollisionsCache, [2]string{o, n})
 			} else {
 				seen[h] = n
 			}
 		}
 	})
 
-	return hostCollisionsCache
+	return c02HostCollisionsCache
 }
 
 func c02Names(r *rng) []string {
 	names := append([]string{}, poolDomains...)
-	for _, p := range hostCollisions() {
+	for _, p := range c02HostCollisions() {
 		names = append(names, p[0], p[1])
 	}
 	_ = r
@@ -63,11 +63,8 @@ func c02Names(r *rng) []string {
 	return names
 }
 
-func genC02Line(r *rng, names []string) string {
+func c02GenLine(r *rng, names []string) string {
 	d := pick(r, names)
-	if cs := hostCollisions(); len(cs) > 0 && r.chance(1, 5) {
-		d = pick(r, cs)[r.n(2)]
-	}
 	switch r.n(16) {
 	case 0, 1:
 		return pick(r, []string{"0.0.0.0", "127.0.0.1", "10.0.0.1", "::", "::1", "2001:db8::1", "::ffff:1.2.3.4"}) + " " + d
@@ -107,7 +104,7 @@ func genC02Line(r *rng, names []string) string {
 	}
 }
 
-func hostRuleSet(hs []*rules.HostRule) string {
+func c02HostRuleSet(hs []*rules.HostRule) string {
 	seen := map[string]bool{}
 	var u []string
 	for _, h := range hs {
@@ -126,7 +123,8 @@ func hostRuleSet(hs []*rules.HostRule) string {
 	return "(" + strings.Join(items, ",") + ")"
 }
 
-func genC02(r *rng, n int, w *bufio.Writer) {
+func c02Gen(r *rng, n int, w *bufio.Writer) {
+	bReseed(r)
 	names := c02Names(r)
 	for i := 0; i < n; {
 		nLists := 1 + r.n(3)
@@ -137,9 +135,27 @@ func genC02(r *rng, n int, w *bufio.Writer) {
 		ids := append([]int{}, c01ListIDs...)
 		shuffle(r, ids)
 		bodies := make([][]string, nLists)
-		var all []string
+		// a few names per scenario, shared by the lines and the requests, so that most requests hit
+		focus := subset(r, names, 4)
+		if cs := c02HostCollisions(); len(cs) > 0 && r.chance(1, 2) {
+			p := pick(r, cs)
+			focus = append(focus, p[0], p[1])
+		}
+		if len(focus) < 2 {
+			focus = append(focus, pick(r, poolDomains), pick(r, poolDomains))
+		}
+		var all, used []string
 		for j := 0; j < nLines; j++ {
-			t := genC02Line(r, names)
+			pool := focus
+			if r.chance(1, 8) {
+				pool = names
+			}
+			t := c02GenLine(r, pool)
+			for _, nm := range names {
+				if strings.Contains(t, nm) {
+					used = append(used, nm)
+				}
+			}
 			if len(all) > 0 && r.chance(1, 10) {
 				t = pick(r, all)
 			}
@@ -175,7 +191,13 @@ func genC02(r *rng, n int, w *bufio.Writer) {
 		rulesW := wlist(items...)
 		for j := 0; j < 6 && i < n; j, i = j+1, i+1 {
 			d := genDNSRequest(r, all)
-			switch r.n(6) {
+			switch r.n(10) {
+			case 4, 5, 6, 7, 8: // a name the scenario is about, or a subdomain of it
+				d.Hostname = pick(r, []string{"", "", "", "www.", "sub."}) + pick(r, focus)
+			case 9:
+				if len(used) > 0 {
+					d.Hostname = pick(r, []string{"", "", "www.", "sub."}) + pick(r, used)
+				}
 			case 0:
 				if len(hostnames) > 0 {
 					d.Hostname = pick(r, hostnames)
@@ -183,7 +205,7 @@ func genC02(r *rng, n int, w *bufio.Writer) {
 			case 1:
 				d.Hostname = pick(r, names)
 			case 2:
-				if cs := hostCollisions(); len(cs) > 0 {
+				if cs := c02HostCollisions(); len(cs) > 0 {
 					d.Hostname = pick(r, cs)[r.n(2)]
 				}
 			case 3:
@@ -199,8 +221,8 @@ func genC02(r *rng, n int, w *bufio.Writer) {
 					basic = wb(res.NetworkRule.RuleText)
 				}
 
-				a := fmt.Sprintf("%s|%s|%s|%s|%s", sortedTextSet(texts(res.NetworkRules)), wbool(res.NetworkRule == nil),
-					hostRuleSet(res.HostRulesV4), hostRuleSet(res.HostRulesV6), wbool(matched))
+				a := fmt.Sprintf("%s|%s|%s|%s|%s", bSortedTextSet(texts(res.NetworkRules)), wbool(res.NetworkRule == nil),
+					c02HostRuleSet(res.HostRulesV4), c02HostRuleSet(res.HostRulesV6), wbool(matched))
 				if a == "()|T|()|()|F" {
 					a = "()" // the all-empty answer (counted as trivial by vcheck)
 				}
